@@ -437,6 +437,13 @@ def rule_vectors(ctx: Ctx, typer: Typer):
         ctx.check(ok, "VEC-2", f, red, f"per-state flag derived from {'/'.join(sorted(arrays))} keeps the source-state axis (reduces the action and successor axes)", str(axes),
                   f"`{norm(red, 70)}` reduces axes {axes} of an (S, A, S') array: what is left is not indexed by the source state, so the flag of a state is computed "
                   f"from the transitions INTO it")
+    # (written after seed C06-e) "every reward out of the state is 0" is an all() over element-wise equality; a sum that is 0 is a different predicate
+    zr = S.find("(self.reward_matrix == 0).all(REST, REST=ANY)") or S.find("(self.reward_matrix == 0).all(REST=ANY)")
+    sums = [c for c in ast.walk(f.node) if isinstance(c, ast.Compare) and len(c.ops) == 1 and isinstance(c.ops[0], ast.Eq)
+            and any(isinstance(x, ast.Call) and isinstance(x.func, ast.Attribute) and x.func.attr in ("sum", "mean") and "reward" in ast.unparse(x.func.value) for x in ast.walk(c))]
+    if not zr and sums:
+        ctx.violation("VEC-2", f, sums[0], "zero-reward flag = all rewards out of the state are 0",
+                      f"`{norm(sums[0], 70)}` tests that rewards SUM to zero: rewards of opposite sign cancel, and a state with non-zero rewards is flagged absorbing")
     f = C.methods["_unable_to_reach_absorbing"]
     src = ast.unparse(f.node)
     ctx.check(has_cmp(f.node, "self.discount_rate", "<", "1.0") and "floyd_warshall" in src and "self.absorbing_state_vec" in src, "VEC-1", f, f.node,
